@@ -1,6 +1,6 @@
 // ---- trusted: Arc<str> as an immutable string value ----
 //# assumes: Arc<str>::from(&str) holds exactly the characters of the str; two Arc<str> with equal characters are equal values; Arc<str> hashes/compares by content (key model)
-pub uninterp spec fn arc_chars(a: &Arc<str>) -> Seq<char>;
+pub open spec fn arc_chars(a: &Arc<str>) -> Seq<char> { (**a)@ }
 pub assume_specification<'a, 'b>[ <Arc<str> as From<&'a str>>::from ](s: &'b str) -> (r: Arc<str>)
     ensures arc_chars(&r) == s@;
 #[verifier::external_body]
@@ -17,3 +17,13 @@ pub proof fn axiom_arc_str_key_model()
     ensures obeys_key_model::<Arc<str>>()
 {}
 pub open spec fn strs(v: Seq<Arc<str>>) -> Seq<Seq<char>> { v.map_values(|a: Arc<str>| arc_chars(&a)) }
+//# assumes: Arc<str>::from(String) holds exactly the characters of the String; &arc[..] views them as &str
+pub assume_specification[ <Arc<str> as From<String>>::from ](s: String) -> (r: Arc<str>)
+    ensures arc_chars(&r) == s@;
+#[verifier::external_body]
+pub fn verif_arc_str<'a>(a: &'a Arc<str>) -> (r: &'a str)
+    ensures r@ == arc_chars(a)
+{ &a[..] }
+//# assumes: the reflexive conversion `impl<T> From<T> for T` returns its argument
+pub assume_specification<T>[ <T as From<T>>::from ](t: T) -> (r: T)
+    ensures r == t;
